@@ -1221,13 +1221,121 @@ fn tiny_ufo(dir: &Path, version: u32, fontinfo_body: Option<String>, layerinfo_b
     }
 }
 
+/// a leaf text for plist-in-XML glue: a short base (numbers with hex / sign / exponent prefixes in
+/// both cases, dates, base64, blanks) with 1-3 multi-byte chars placed so that the byte offsets
+/// 1..4 fall inside a character
+fn leaf_text(rng: &mut Rng) -> String {
+    let bases = ["", " ", "\n\t ", "1", "12", "123", "1234", "12345", "0x", "0X", "0x1", "0X1F", "0xff", "0x1g", "+1", "-1", "+", "-", "+0x1", "-0X1",
+        "1e", "1E", "1e5", "1E+5", "1e-5", ".5", "1.", "1.5", "nan", "inf", "-inf", "NaN", "9223372036854775807", "18446744073709551615",
+        "18446744073709551616", "-9223372036854775809", "2020-01-01T00:00:00Z", "2020-01-01", "AAAA", "AA==", "A", "true", "s", "0x 1", " 0x1", "0x1 "];
+    let base = *rng.pick(&bases);
+    match rng.below(6) {
+        0 => base.to_string(),
+        1 | 2 => {
+            // multi-byte chars straddling the first byte offsets: k ASCII bytes, then the char
+            let k = rng.below(4) as usize;
+            let pre: String = base.chars().filter(|c| c.is_ascii()).take(k).collect();
+            let pad = "1".repeat(k.saturating_sub(pre.len()));
+            let mut t = format!("{}{}{}", pre, pad, *rng.pick(MB));
+            if rng.chance(1, 2) {
+                t.push_str(*rng.pick(MB));
+            }
+            if rng.chance(1, 2) {
+                t.push_str(base);
+            }
+            t
+        }
+        3 => format!("{}{}", *rng.pick(MB), base),
+        4 => {
+            let sb = rng.chance(1, 2);
+            substitute(rng, base, sb)
+        }
+        _ => {
+            let mut t = String::new();
+            for _ in 0..1 + rng.below(3) {
+                t.push_str(*rng.pick(MB));
+            }
+            t
+        }
+    }
+}
+
+/// leaves of the designspace lib glue (norad's serde_xml_plist over quick-xml), numeric XML
+/// attributes of designspace elements, and the same leaves read through the plist crate
+/// (lib.plist, glif lib); every file is loaded under catch_unwind
+fn case_leaf_values(deep: &Path, ds_base: &str, rng: &mut Rng, log: &mut CaseLog) {
+    let t = leaf_text(rng);
+    let e = xml_escape(&t);
+    let kinds = ["integer", "real", "date", "data", "string", "key", "true", "false", "array", "dict"];
+    let kind = *rng.pick(&kinds);
+    let leaf = match kind {
+        "key" => format!("<key>{}</key><string>v</string>", e),
+        "true" | "false" => format!("<key>k</key><{}>{}</{}>", kind, e, kind),
+        _ => format!("<key>k</key><{}>{}</{}>", kind, e, kind),
+    };
+    let route = rng.below(5);
+    log.desc = format!("value leaf <{}> text={:?} ({} bytes) route={}", kind, t, t.len(), ["designspace lib", "designspace attribute", "lib.plist", "glif lib", "layerinfo lib"][route as usize]);
+    log.hash = fnv(log.desc.as_bytes());
+    let attr = t.replace('&', "&amp;").replace('<', "&lt;").replace('"', "&quot;");
+    match route {
+        0 | 1 => {
+            // a corpus designspace document without a <lib>: the leaf goes into a new <lib>, or the text
+            // replaces the value of one numeric attribute
+            let body = if route == 0 {
+                ds_base.replacen("</designspace>", &format!("<lib><dict>{}</dict></lib></designspace>", leaf), 1)
+            } else {
+                let an = *rng.pick(&["xvalue=\"", "minimum=\"", "maximum=\"", "default=\"", "input=\"", "output=\"", "format=\"", "yvalue=\"", "uservalue=\""]);
+                match ds_base.find(an) {
+                    Some(at) => {
+                        let v0 = at + an.len();
+                        let v1 = ds_base[v0..].find('"').map(|x| v0 + x).unwrap_or(v0);
+                        format!("{}{}{}", &ds_base[..v0], attr, &ds_base[v1..])
+                    }
+                    None => ds_base.replacen("<axes>", &format!("<axes elidedfallbackname=\"{}\">", attr), 1),
+                }
+            };
+            let p = deep.join("v.designspace");
+            let _ = std::fs::write(&p, body);
+            if let Some(Ok(d)) = log.guard("DesignSpaceDocument::load", || DesignSpaceDocument::load(&p), |r| r.is_ok()) {
+                log.deep = true;
+                let q = deep.join("o.designspace");
+                if let Some(Ok(())) = log.guard("DesignSpaceDocument::save", || d.save(&q), |r| r.is_ok()) {
+                    log.guard("DesignSpaceDocument::load(saved)", || DesignSpaceDocument::load(&q), |r| r.is_ok());
+                }
+            }
+        }
+        3 => {
+            let glif = format!("<?xml version=\"1.0\" encoding=\"UTF-8\"?>\n<glyph name=\"a\" format=\"2\"><lib><dict>{}</dict></lib></glyph>", leaf);
+            if let Some(Ok(g)) = log.guard("Glyph::parse_raw", || Glyph::parse_raw(glif.as_bytes()), |r| r.is_ok()) {
+                log.deep = true;
+                exercise_glyph(log, &g, &opts_from(rng), true);
+            }
+        }
+        _ => {
+            let ufo = deep.join("v.ufo");
+            tiny_ufo(&ufo, 3, None, if route == 4 { Some(format!("<key>lib</key><dict>{}</dict>", leaf)) } else { None }, None);
+            if route == 2 {
+                let _ = std::fs::write(ufo.join("lib.plist"), format!("{}<dict>{}</dict>\n</plist>\n", PLIST_HEAD, leaf));
+            }
+            if let Some(Ok(font)) = log.guard("Font::load", || Font::load(&ufo), |r| r.is_ok()) {
+                log.deep = true;
+                exercise_font(deep, log, &font, rng, true);
+            }
+        }
+    }
+}
+
 /// structure-aware VALUES for the typed string fields that norad slices or parses by byte offsets
 /// or fixed shapes: each value satisfies the length guard in BYTES (or in chars) but not the
 /// character class, and would satisfy the class under a weakened test (is_numeric, chars().count())
 fn case_values(env: &mut Env, _idx: u64, rng: &mut Rng, log: &mut CaseLog, keep: bool) {
     let (top, deep) = env.case_dir();
-    let kind = rng.below(10);
+    let kind = rng.below(14);
     match kind {
+        10..=13 => {
+            let base = env.dss.iter().find(|(_, b)| find_all(b, b"<lib").is_empty()).map(|(_, b)| String::from_utf8_lossy(b).to_string()).unwrap_or_default();
+            case_leaf_values(&deep, &base, rng, log)
+        }
         0..=3 => {
             // openTypeHeadCreated: "YYYY/MM/DD HH:MM:SS", 19 bytes
             let bases = ["2020/01/01 00:00:00", "1999/12/31 23:59:59", "2020/1/01 000:00:00", "0000000000000000000", "2020/01/01 00:00:0", "2020/01/01 00:00:000"];
